@@ -132,7 +132,7 @@ func runMatcherProperty(t *testing.T, prop string) {
 				rj["model"] = want[k]
 				rj["broken"] = "correspondence stream drv/" + mc.Cfg.Variant + " (Lean TRV.Drv vs the real driver)"
 				rep.Violate(hx.Violation{Kind: "correspondence", NoInput: true,
-					What: fmt.Sprintf("driver model and implementation differ (%s, stream %s): impl %s, model %s", mc.Cfg.Variant, stream, st.Impl, want[k]),
+					What: fmt.Sprintf("driver model and implementation differ (%s); the spec predicates hold on the implementation's outputs", mc.Cfg.Variant),
 					Sig:  map[string]string{"variant": mc.Cfg.Variant, "stream": "drv"}, Replay: rj})
 				break
 			}
